@@ -18,7 +18,8 @@ RULE = ("(i) random strings over an alphabet rich in quotes, brackets, %, backsl
         "trees; (iii) arbitrary Unicode column names in backticks; (iv) Python fragments and token-level reformattings; non-trivial = "
         ">=2 tokens; distinct by string")
 EXPLANATION = ("tokenizer model Tok.v (character-level state machine with spans) + theorems: whitespace insensitivity at any top-level token boundary "
-               "(tokens and parsed formulas), backtick names verbatim for every name without backtick/backslash, spans ordered and disjoint; the model is "
+               "(tokens and parsed formulas), backtick names verbatim for every name without backtick/backslash, every quoted region verbatim step by step, spans "
+               "ordered and disjoint for every accepted input; the model is "
                "evaluated in Coq on every string and must return the implementation's (text, kind, start, end) list or error site")
 TRUSTED = ["modelled, not verified: Python `re` classes of non-ASCII code points (oracle per case), ast.parse/ast.unparse (oracle per case)",
            "backtick aliasing inside Python fragments (sanitize_variable_names) is compared through the py_norm oracle, not proved"]
